@@ -293,7 +293,7 @@ func (f *fragmentList) build(in *layers.IPv4) (*layers.IPv4, error) {
 				return nil, errors.New("defrag: building - invalid fragment")
 			}
 			final = append(final, frag.Payload[startAt:]...)
-			currentOffset = currentOffset + frag.FragOffset*8
+			currentOffset = frag.FragOffset*8 + frag.Length - uint16(frag.IHL)*4
 		} else {
 			// Houston - we have an hole !
 			debug.Printf("defrag: hole found while building, " +
@@ -301,6 +301,10 @@ func (f *fragmentList) build(in *layers.IPv4) (*layers.IPv4, error) {
 			return nil, errors.New("defrag: building - hole found")
 		}
 		debug.Printf("defrag: building - next is %d\n", currentOffset)
+	}
+	if currentOffset != f.Highest {
+		// the list ends before the highest byte announced
+		return nil, errors.New("defrag: building - hole found")
 	}
 
 	// the total length of the datagram counts its header
